@@ -132,9 +132,11 @@ func edgeMid(a, b int) pt {
 	return pt{ca[0] + cb[0], ca[1] + cb[1], ca[2] + cb[2]}
 }
 
-func sub(a, b pt) pt   { return pt{a[0] - b[0], a[1] - b[1], a[2] - b[2]} }
-func cross(a, b pt) pt { return pt{a[1]*b[2] - a[2]*b[1], a[2]*b[0] - a[0]*b[2], a[0]*b[1] - a[1]*b[0]} }
-func dot(a, b pt) int  { return a[0]*b[0] + a[1]*b[1] + a[2]*b[2] }
+func sub(a, b pt) pt { return pt{a[0] - b[0], a[1] - b[1], a[2] - b[2]} }
+func cross(a, b pt) pt {
+	return pt{a[1]*b[2] - a[2]*b[1], a[2]*b[0] - a[0]*b[2], a[0]*b[1] - a[1]*b[0]}
+}
+func dot(a, b pt) int { return a[0]*b[0] + a[1]*b[1] + a[2]*b[2] }
 
 // runMarchingCubesOrbit emits only the GROUP/ORBIT obligations (used by C12).
 func (c *Ctx) runMarchingCubesOrbit(prefix string) {
